@@ -14,7 +14,9 @@
    outputs are checked numerically on every run against an independent scaling-and-squaring
    Taylor evaluation of exp(Qt) of the MODEL's Q (harness/props/c04.py). *)
 From Coq Require Import QArith Reals List Arith Lia Lra.
+Set Warnings "-ambiguous-paths".
 From Coquelicot Require Import Coquelicot.
+Set Warnings "ambiguous-paths".
 Import ListNotations.
 From TT Require Import Num NumR NumI ParamI Tree M_subst G_subst M_subst_gen P_subst P_subst_gen P_subst_param.
 Open Scope R_scope.
